@@ -153,6 +153,10 @@ def generate(rng, prop, tier):
     return {'engine': 'racesim', 'prop': prop, 'backend': B.with_link(rng, label, B.config(label, B.odd_name(rng, label, 'r0')), 0.12), 'ops': pre,
             'history': history,
             'skew': [rng.weighted([(6, 0), (2, 90), (1, 3600), (1, -3600)]) for _ in clients],
+            # a stalled client: once it is about to commit (sqlite) / rename its staging directory into place (dir)
+            # it is not scheduled again until everybody else has finished or given up (a slow or suspended process)
+            'stall': ({'c': rng.choice([i for i, r in enumerate(roles) if r in ('writer', 'overwriter', 'deleter')] or [0]),
+                       'at': 'sql-commit' if f == 'sql' else 'rename'} if f != 'file' and rng.chance(0.15) else None),
             'clients': clients, 'sseed': rng.below(1 << 30), 'kseed': rng.below(1 << 30),
             'sticky': rng.choice([0.2, 0.5, 0.8]), 'order': rng.choice(['sorted', 'permute'])}
 
@@ -326,6 +330,8 @@ def run_schedule(case, root, rng, max_steps=6000):
         if m.get('t') != 'ready':
             raise Stuck('client %d did not start: %r' % (c, m))
     pinned = case.get('schedule')
+    stall = case.get('stall') or None
+    stalled = None
     cur = None
     switches = 0
     overlap = 0
@@ -340,6 +346,14 @@ def run_schedule(case, root, rng, max_steps=6000):
             elif pinned is not None:
                 c = runnable[0]
             else:
+                if stall and stalled is None and stall['c'] in runnable and last_kind[stall['c']] == stall['at']:
+                    stalled = stall['c']
+                    stall = None                     # once
+                    history.append((seq, stalled, 'stalled', None, None))
+                if stalled is not None and [x for x in runnable if x != stalled]:
+                    runnable = [x for x in runnable if x != stalled]
+                else:
+                    stalled = None
                 unblocked = [x for x in runnable if last_kind[x] != 'sql-blocked'] or runnable
                 stay = case.get('sticky', 0.5)
                 if cur in unblocked and last_kind[cur] in ('unlink', 'rmdir', 'rename', 'sql-dml'):
@@ -705,6 +719,8 @@ def execute(case, prop, ctx):
     bad = analyse(case, history, final)
     slept = 0.0
     for (seq, c, kind, a, b) in history:
+        if kind == 'stalled':
+            bump(faults, 'client-stalled-holding-its-transaction-or-staging-directory')
         if kind == 'ev':
             bump(faults, 'yield-' + a)
         if kind == 'end':
@@ -752,6 +768,10 @@ def simplify(case):
     if any(case.get('skew') or []):
         c = _copy.deepcopy(case)
         c['skew'] = [0 for _ in case['clients']]
+        yield c
+    if case.get('stall'):
+        c = _copy.deepcopy(case)
+        c['stall'] = None
         yield c
     for s in (1, 2, 3, 5, 8):
         if case['sseed'] != s:
